@@ -74,3 +74,263 @@ Example copy_back_example :
   map f_sum (snd (copy_back_all [Moved.u1] [Moved.l2])) = [9] /\
   map f_sum (copy_back_into_snapshot [Moved.u1] [Moved.l1] [Moved.l1; Moved.l2]) = [7; 9].
 Proof. vm_compute. repeat split; reflexivity. Qed.
+
+(** * A list disabled while a refresh is downloading it, then enabled again
+    (found in round 8, repaired in /repo by 7322afe)
+
+    The copy-back matches by ID (and URL) and does not look at [Enabled]: a
+    pass whose working copy of list [i] was taken while it was enabled, a
+    set_url call that disables the list while the download is under way, the
+    download finishing (file replaced, rule count and checksum copied into the
+    DISABLED entry), then a set_url call that enables the list, its source
+    delivering unchanged content.  [update] reports "no change"; the code
+    removes the stored file only if the checksum it compared with is zero, so
+    the file, the rule count, the checksum and the rules in force are those of
+    the last successful download.  The removal without that test (the code
+    before 7322afe) deleted the file. *)
+Section DisableDuringRefresh.
+  Variable crc : N -> bytes -> N.
+
+  Lemma refresh_array_split ls force due oc fs :
+    refresh_array crc ls force due oc fs = finish_array crc (to_update ls force due) ls oc fs.
+  Proof. reflexivity. Qed.
+
+  Lemma copy_back_url u f : f_url (copy_back u f) = f_url f.
+  Proof. unfold copy_back. destruct (_ && _); reflexivity. Qed.
+
+  (** The statement, for the function [setp] that serves the enabling call. *)
+  Definition reenable_after_overlap_statement
+      (setp : bool -> N -> bytes -> N -> bool -> outcome -> rstate -> bool * bool * rstate) : Prop :=
+    forall allow u i name name' o force due oc d re pst d2 re2 pst2 st pre f post,
+      NoDup (map f_id (arr allow st)) ->
+      arr allow st = pre ++ f :: post -> Forall (other_url u) pre ->
+      Forall (other_id i) pre -> Forall (other_id i) post ->
+      f_url f = u -> f_id f = i -> f_enabled f = true -> force || due i = true ->
+      (* the pass downloads changed content with rules *)
+      oc i = OBody d re -> parse crc d re = (pst, None) -> p_sum pst <> f_sum f -> p_sum pst <> 0 ->
+      (* the enabling call finds unchanged content *)
+      parse crc d2 re2 = (pst2, None) -> p_sum pst2 = p_sum pst ->
+      let st2 := refresh_over crc allow force due oc (fun s => snd (set_props crc allow u name u false o s)) st in
+      let '(rs, er, st3) := setp allow u name' u true (OBody d2 re2) st2 in
+      er = false /\ rs = true /\
+      fget i (r_files st3) = Some (output pst) /\
+      lookup i (eng_arr allow (r_engine st3)) = Some (output pst) /\
+      exists f', In f' (arr allow st3) /\ f_id f' = i /\ f_enabled f' = true /\
+                 f_count f' = p_count pst /\ f_sum f' = p_sum pst.
+
+  (** What the overlapped pass leaves: the file of the download, and the
+      disabled entry with its rule count and checksum. *)
+  Lemma overlap_leaves allow u i name o force due oc d re pst st pre f post :
+    NoDup (map f_id (arr allow st)) ->
+    arr allow st = pre ++ f :: post -> Forall (other_url u) pre ->
+    Forall (other_id i) pre -> Forall (other_id i) post ->
+    f_url f = u -> f_id f = i -> f_enabled f = true -> force || due i = true ->
+    oc i = OBody d re -> parse crc d re = (pst, None) -> p_sum pst <> f_sum f ->
+    let st2 := refresh_over crc allow force due oc (fun s => snd (set_props crc allow u name u false o s)) st in
+    fget i (r_files st2) = Some (output pst) /\
+    exists pre' post' nm,
+      arr allow st2 = pre' ++ {| f_id := i; f_url := u; f_enabled := false; f_name := nm;
+                                 f_count := p_count pst; f_sum := p_sum pst |} :: post' /\
+      Forall (other_url u) pre' /\ Forall (other_id i) pre' /\ Forall (other_id i) post'.
+  Proof.
+    intros ND Ha Hp Hpi Hq Hu Hi En Hd Ho P NS.
+    pose proof (disable_takes_rules_out crc allow u i name u o st pre f post Ha Hp Hpi Hq Hu Hi En (or_introl eq_refl)) as D.
+    unfold refresh_over.
+    change (if allow then r_allow st else r_block st) with (arr allow st).
+    destruct (set_props crc allow u name u false o st) as [[rs0 er0] st1]. cbn [snd].
+    change (if allow then r_allow st1 else r_block st1) with (arr allow st1).
+    destruct D as (_ & _ & _ & _ & Fs & A1). rewrite A1, Fs.
+    set (fd := {| f_id := i; f_url := u; f_enabled := false; f_name := name; f_count := 0; f_sum := 0 |}).
+    set (sel := fun l => f_enabled l && (force || due (f_id l))).
+    unfold to_update. fold sel. set (ws := map wcopy (filter sel (arr allow st))).
+    assert (Hin : In f (arr allow st)) by (rewrite Ha; apply in_app_iff; right; now left).
+    assert (Sf : sel f = true) by (unfold sel; now rewrite En, Hi, Hd).
+    assert (W1 : NoDup (map f_id ws)) by now apply nodup_ids_filter.
+    assert (W2 : find (fun w => f_id w =? i) ws = Some (wcopy f)).
+    { unfold ws. rewrite (find_ext_eq _ (fun w => f_id w =? f_id f)) by (intros w; now rewrite Hi).
+      rewrite (find_sel crc sel (arr allow st) f ND Hin), Sf. reflexivity. }
+    (* the download of list [i] *)
+    assert (U1 : forall fs, update_one crc (wcopy f) (OBody d re) fs =
+                 ({| u_updated := true; u_err := false; u_list := filled (wcopy f) pst |},
+                  fset i (output pst) fs)).
+    { intros fs. unfold update_one. rewrite P. cbn [wcopy f_sum f_id].
+      destruct (N.eqb_spec (p_sum pst) (f_sum f)); [contradiction|]. now rewrite Hi. }
+    set (g := fun w => upd_of crc w (oc (f_id w))).
+    assert (Gi : g (wcopy f) = {| u_updated := true; u_err := false; u_list := filled (wcopy f) pst |}).
+    { unfold g, upd_of. cbn [wcopy f_id]. rewrite Hi, Ho, U1. reflexivity. }
+    unfold finish_array. destruct ws as [|w0 wr] eqn:Ew; [discriminate W2|]. rewrite <- Ew in *. clear Ew w0 wr.
+    pose proof (update_all_fst crc oc ws (r_files st)) as Hus. fold g in Hus.
+    pose proof (update_all_files crc oc ws (r_files st) i W1) as Hfi. rewrite W2, Ho, U1 in Hfi. cbn [snd] in Hfi.
+    destruct (update_all crc ws oc (r_files st)) as [us fs']. cbn [fst snd] in Hus, Hfi.
+    assert (Iw : In (wcopy f) ws) by (apply find_some in W2; tauto).
+    destruct (forallb u_err us) eqn:AE.
+    { exfalso. rewrite forallb_forall in AE.
+      assert (Ig : In (g (wcopy f)) us) by (rewrite Hus; now apply in_map).
+      specialize (AE _ Ig). rewrite Gi in AE. discriminate AE. }
+    assert (NDu : NoDup (map uid us)).
+    { rewrite Hus, map_map. erewrite map_ext; [exact W1|]. intros w. unfold uid, g, upd_of. now rewrite update_one_id. }
+    pose proof (copy_back_all_spec crc us (pre ++ fd :: post) NDu) as CB.
+    destruct (copy_back_all us (pre ++ fd :: post)) as [n ls']. cbn [snd] in CB.
+    set (h := fun f0 => match find (fun u0 => uid u0 =? f_id f0) us with Some u0 => copy_back u0 f0 | None => f0 end) in CB.
+    assert (Hh : forall f0, f_id (h f0) = f_id f0 /\ f_url (h f0) = f_url f0).
+    { intros f0. unfold h. destruct (find _ us); [split; [apply copy_back_id|apply copy_back_url]|auto]. }
+    assert (Fi : find (fun u0 => uid u0 =? i) us = Some (g (wcopy f))).
+    { rewrite Hus, find_map_gen.
+      rewrite (find_ext_eq _ (fun w => f_id w =? i)) by (intros w; unfold uid, g, upd_of; now rewrite update_one_id).
+      now rewrite W2. }
+    assert (Hfd : h fd = {| f_id := i; f_url := u; f_enabled := false; f_name := f_name (filled (wcopy f) pst);
+                            f_count := p_count pst; f_sum := p_sum pst |}).
+    { unfold h. cbn [fd f_id]. rewrite Fi, Gi. unfold copy_back. cbn [u_list u_updated filled wcopy f_id fd f_url f_enabled f_count f_sum].
+      rewrite Hi, N.eqb_refl. reflexivity. }
+    rewrite map_app in CB. cbn [map] in CB. rewrite Hfd in CB.
+    split.
+    - cbn [r_files]. unfold fget. rewrite Hfi, fentry_fset_eq. reflexivity.
+    - exists (map h pre), (map h post), (f_name (filled (wcopy f) pst)).
+      split; [destruct allow; cbn [arr r_allow r_block]; exact CB|].
+      assert (T : forall (Q : flist -> Prop) l, (forall a, Q a -> Q (h a)) -> Forall Q l -> Forall Q (map h l)).
+      { intros Q l HQ. induction 1; cbn; constructor; auto. }
+      split; [|split]; apply T; auto; intros a; unfold other_url, other_id;
+        destruct (Hh a) as [E1 E2]; rewrite ?E1, ?E2; auto.
+  Qed.
+
+  (** The code. *)
+  Theorem reenable_after_overlap : reenable_after_overlap_statement (set_props crc).
+  Proof.
+    intros allow u i name name' o force due oc d re pst d2 re2 pst2 st pre f post
+           ND Ha Hp Hpi Hq Hu Hi En Hd Ho P NS NZ P2 S2 st2.
+    destruct (overlap_leaves allow u i name o force due oc d re pst st pre f post ND Ha Hp Hpi Hq Hu Hi En Hd Ho P NS)
+      as (G & pre' & post' & nm & A2 & Hp' & Hpi' & Hq').
+    fold st2 in G, A2. clearbody st2.
+    unfold set_props. fold (arr allow st2). rewrite A2.
+    rewrite set_in_split by auto. unfold set_entry. cbn [f_url f_enabled]. rewrite N.eqb_refl. cbn [negb andb orb Bool.eqb].
+    unfold set_target. cbn [f_url f_id f_count f_sum]. rewrite N.eqb_refl. cbn [negb].
+    unfold update_one. rewrite P2. cbn [f_sum]. rewrite S2, N.eqb_refl. cbn [u_err u_updated u_list f_sum].
+    destruct (N.eqb_spec (p_sum pst) 0) as [|_]; [contradiction|]. cbn [negb andb].
+    split; [reflexivity|]. split; [reflexivity|]. split; [cbn [r_files]; exact G|]. split.
+    - destruct allow; cbn [eng_arr r_engine rebuild e_allow e_block];
+        rewrite lookup_snapshot, existsb_split_on by reflexivity; exact G.
+    - eexists. split; [destruct allow; cbn [arr r_allow r_block]; apply in_app_iff; right; left; reflexivity|].
+      cbn. auto.
+  Qed.
+End DisableDuringRefresh.
+
+(** The enabling call with the removal made unconditional ([guard = false]:
+    the code before 7322afe, NOT the code now; [guard = true] is
+    [set_entry] / [set_in] / [set_props] of Model/Refresh.v, see
+    [set_props_g_true]). *)
+Section Unguarded.
+  Variable crc : N -> bytes -> N.
+  Variable guard : bool.
+
+  Definition set_entry_g (f : flist) (name : bytes) (nurl : N) (dup : bool) (en : bool) (o : outcome)
+      (fs : files) : bool * bool * flist * files :=
+    let changed := negb (f_url f =? nurl) in
+    if changed && dup then (false, true, f, fs)
+    else
+      let f1 := set_target f name nurl en in
+      let restart := changed || negb (Bool.eqb (f_enabled f) en) in
+      if en then
+        if restart then
+          let '(u, fs') := update_one crc f1 o fs in
+          if u_err u then
+            (u_updated u, true,
+             {| f_id := f_id f; f_url := f_url f; f_enabled := f_enabled f; f_name := f_name f;
+                f_count := f_count f; f_sum := restored_sum f u |}, fs')
+          else if u_updated u then (true, false, u_list u, fs')
+          else if negb guard || (f_sum f1 =? 0) then (true, false, u_list u, fdel (f_id f) fs')
+          else (true, false, u_list u, fs')
+        else (false, false, f1, fs)
+      else (restart, false, unload f1, fs).
+
+  Fixpoint set_in_g (ls : list flist) (url : N) (name : bytes) (nurl : N) (dup : bool) (en : bool)
+      (o : outcome) (fs : files) : option (bool * bool * list flist * files) :=
+    match ls with
+    | [] => None
+    | f :: r =>
+        if f_url f =? url then
+          let '(rs, er, f', fs') := set_entry_g f name nurl dup en o fs in Some (rs, er, f' :: r, fs')
+        else match set_in_g r url name nurl dup en o fs with
+             | Some (rs, er, r', fs') => Some (rs, er, f :: r', fs')
+             | None => None
+             end
+    end.
+
+  Definition set_props_g (allow : bool) (url : N) (name : bytes) (nurl : N) (en : bool) (o : outcome)
+      (st : rstate) : bool * bool * rstate :=
+    match set_in_g (if allow then r_allow st else r_block st) url name nurl (url_used nurl st) en o (r_files st) with
+    | None => (false, true, st)
+    | Some (rs, er, ls', fs') =>
+        let bl := if allow then r_block st else ls' in
+        let al := if allow then ls' else r_allow st in
+        let eng := if negb er && rs then rebuild bl al fs' else r_engine st in
+        (rs, er, {| r_block := bl; r_allow := al; r_files := fs'; r_engine := eng |})
+    end.
+End Unguarded.
+
+Lemma set_entry_g_true crc f name nurl dup en o fs :
+  set_entry_g crc true f name nurl dup en o fs = set_entry crc f name nurl dup en o fs.
+Proof. reflexivity. Qed.
+
+Lemma set_in_g_true crc : forall ls url name nurl dup en o fs,
+  set_in_g crc true ls url name nurl dup en o fs = set_in crc ls url name nurl dup en o fs.
+Proof.
+  induction ls as [|f ls IH]; intros; cbn [set_in_g set_in]; auto.
+Qed.
+
+Lemma set_props_g_true crc allow url name nurl en o st :
+  set_props_g crc true allow url name nurl en o st = set_props crc allow url name nurl en o st.
+Proof. unfold set_props_g, set_props. now rewrite set_in_g_true. Qed.
+
+(** The witness: [st1] (block list 1 stored with [good], enabled); a forced
+    pass downloads [good2] for it; set_url disables it meanwhile; set_url
+    enables it again, the source still delivering [good2]. *)
+Module Gated.
+  Import RExamples.
+  Definition oc2 (_ : N) : outcome := OBody good2 false.
+  Definition disable (s : rstate) : rstate := snd (set_props crc32_update false 1 [120] 1 false OOpenErr s).
+  (* the pass overlapped by the disabling call *)
+  Definition st_over := refresh_over crc32_update false true all oc2 disable st1.
+  (* the code, and the removal without the test *)
+  Definition st_on := snd (set_props crc32_update false 1 [120] 1 true (OBody good2 false) st_over).
+  Definition st_on_old := snd (set_props_g crc32_update false false 1 [120] 1 true (OBody good2 false) st_over).
+  Definition st_later_old := refresh crc32_update true true true all oc2 st_on_old.
+End Gated.
+
+Example gated_example :
+  (* after the overlapped pass: file of the download, disabled entry with count and checksum, not in force *)
+  fget 1 (r_files Gated.st_over) = Some RExamples.good2 /\
+  map f_enabled (r_block Gated.st_over) = [false] /\
+  map f_count (r_block Gated.st_over) = [1] /\
+  map f_sum (r_block Gated.st_over) <> [0] /\
+  over_report crc32_update false true RExamples.all Gated.oc2 Gated.disable RExamples.st1 = (1, false) /\
+  verdict (r_engine Gated.st_over) [112;50] = 0 /\
+  (* the same pass without the call in between is the pass of [refresh_array] *)
+  refresh_over crc32_update false true RExamples.all Gated.oc2 (fun s => s) RExamples.st1
+  = refresh crc32_update true false true RExamples.all Gated.oc2 RExamples.st1 /\
+  (* the code: enabled, stored, in force *)
+  fget 1 (r_files Gated.st_on) = Some RExamples.good2 /\
+  map f_enabled (r_block Gated.st_on) = [true] /\
+  map f_count (r_block Gated.st_on) = [1] /\
+  lookup 1 (e_block (r_engine Gated.st_on)) = Some RExamples.good2 /\
+  verdict (r_engine Gated.st_on) [112;50] = 1 /\
+  (* the old removal: enabled with its rule count, no file, nothing in force, and the next pass sees no change *)
+  fget 1 (r_files Gated.st_on_old) = None /\
+  map f_enabled (r_block Gated.st_on_old) = [true] /\
+  map f_count (r_block Gated.st_on_old) = [1] /\
+  lookup 1 (e_block (r_engine Gated.st_on_old)) = None /\
+  verdict (r_engine Gated.st_on_old) [112;50] = 0 /\
+  fget 1 (r_files Gated.st_later_old) = None.
+Proof. vm_compute. repeat split; congruence. Qed.
+
+Theorem reenable_after_overlap_unguarded_refuted :
+  ~ reenable_after_overlap_statement crc32_update (set_props_g crc32_update false).
+Proof.
+  intros H.
+  specialize (H false 1 1 [120] [120] OOpenErr true RExamples.all Gated.oc2
+                RExamples.good2 false (fst (parse crc32_update RExamples.good2 false))
+                RExamples.good2 false (fst (parse crc32_update RExamples.good2 false))
+                RExamples.st1 [] (hd (RExamples.mk 0) (r_block RExamples.st1)) []).
+  vm_compute in H.
+  destruct H as (_ & _ & X & _);
+    try solve [reflexivity | discriminate | repeat constructor | (repeat constructor; intros [])].
+Qed.
